@@ -540,7 +540,8 @@ fn exec_c20(plan: &Value, ctx: &mut Ctx) {
                         )
                     } else {
                         let mangle = s["mangle"].as_str().unwrap_or("none");
-                        let nonce_used: Vec<u8> = if mangle == "wrong_nonce" { vec![0x55; nonce_now.len().max(8)] } else { nonce_now.clone() };
+                        let nonce_used: Vec<u8> = if mangle == "wrong_nonce" { vec![0x55; nonce_now.len().max(8)] } else if mangle == "short_plaintext" { Vec::new() } else { nonce_now.clone() };
+                        let pass = if mangle == "short_plaintext" { String::new() } else { pass };
                         let enc = opcua::crypto::user_identity::legacy_password_encrypt(&pass, &nonce_used, &server_cert, pw_policy.asymmetric_encryption_padding());
                         let mut password = match enc {
                             Ok(p) => p,
@@ -570,6 +571,11 @@ fn exec_c20(plan: &Value, ctx: &mut Ctx) {
                                 alg = UAString::from("http://example.org/not-an-algorithm");
                                 ok_shape = false;
                             }
+                            "short_plaintext" => {
+                                // a well-formed ciphertext whose plaintext is shorter than the server nonce
+                                ok_shape = nonce_now.is_empty() && upass.as_deref() == Some("");
+                                ctx.fault("malformed_ciphertext");
+                            }
                             "wrong_nonce" => {
                                 ok_shape = nonce_used == nonce_now;
                                 ctx.fault("token_for_other_nonce");
@@ -587,7 +593,7 @@ fn exec_c20(plan: &Value, ctx: &mut Ctx) {
                         }
                         (
                             ExtensionObject::from_encodable(ObjectId::UserNameIdentityToken_Encoding_DefaultBinary, &tok),
-                            configured && right_pw && right_pid && ok_shape,
+                            if mangle == "short_plaintext" { configured && right_pid && ok_shape } else { configured && right_pw && right_pid && ok_shape },
                             format!("user(encrypted,user={},right_pw={},right_pid={},mangle={})", ui, right_pw, right_pid, mangle),
                         )
                     }
@@ -629,7 +635,7 @@ fn gen_c20(rng: &mut Rng, tier: Tier) -> Value {
         match rng.below(10) {
             0..=1 => steps.push(json!({"kind": "anon", "right_policy_id": rng.chance(0.8)})),
             2..=6 => steps.push(json!({"kind": "user", "user": rng.below(4), "right_password": rng.chance(0.7), "right_policy_id": rng.chance(0.9), "plain": rng.chance(0.1),
-                                      "mangle": *rng.pick(&["none", "none", "none", "none", "truncate", "garbage", "short", "wrong_alg", "wrong_nonce"])})),
+                                      "mangle": *rng.pick(&["none", "none", "none", "none", "truncate", "garbage", "short", "wrong_alg", "wrong_nonce", "short_plaintext"])})),
             7..=8 => steps.push(json!({"kind": "replay", "which": rng.below(4)})),
             _ => steps.push(json!({"kind": "null"})),
         }
